@@ -12,6 +12,26 @@ def _is_digit(ch: str) -> bool:
     return len(ch) == 1 and "0" <= ch <= "9"
 
 
+def _hex_code_point(digits: str) -> Optional[int]:
+    """The code point written by the hex digits of an escape, or None.
+
+    Only 0-9, a-f and A-F count (int() also takes a sign, blanks and
+    underscores), and the value has to be a Unicode code point.
+    """
+    if not digits:
+        return None
+    for ch in digits:
+        if ch not in "0123456789abcdefABCDEF":
+            return None
+    significant = digits.lstrip("0")
+    if len(significant) > 6:
+        return None
+    value = int(significant or "0", 16)
+    if value > 0x10FFFF:
+        return None
+    return value
+
+
 class Lexer:
     """Tokenizes JavaScript source code."""
 
@@ -121,14 +141,14 @@ class Lexer:
                 elif escape == "x":
                     # Hex escape \xNN
                     hex_chars = self._advance() + self._advance()
-                    try:
-                        result.append(chr(int(hex_chars, 16)))
-                    except ValueError:
+                    code = _hex_code_point(hex_chars)
+                    if code is None:
                         raise JSSyntaxError(
                             f"Invalid hex escape: \\x{hex_chars}",
                             self.line,
                             self.column,
                         )
+                    result.append(chr(code))
                 elif escape == "u":
                     # Unicode escape \uNNNN or \u{N...}
                     if self._current() == "{":
@@ -141,14 +161,14 @@ class Lexer:
                         hex_chars = ""
                         for _ in range(4):
                             hex_chars += self._advance()
-                    try:
-                        result.append(chr(int(hex_chars, 16)))
-                    except ValueError:
+                    code = _hex_code_point(hex_chars)
+                    if code is None:
                         raise JSSyntaxError(
                             f"Invalid unicode escape: \\u{hex_chars}",
                             self.line,
                             self.column,
                         )
+                    result.append(chr(code))
                 else:
                     # Unknown escape - just use the character
                     result.append(escape)
